@@ -153,3 +153,19 @@ func verif_RegisterClientCommonConfigFlags(cmd *cobra.Command, c *v1.ClientCommo
 		verif.Ensures(verif.CallCountWith("FlagSet).BoolP", 1, "tls_enable") == 1 && verif.NthArg[bool]("FlagSet).BoolP", 0, 3) && c.Transport.TLS.Enable == verif.Ret[*bool]("FlagSet).BoolP", 0), "tls_enable_defaults_to_true_and_is_bound")
 	}
 }
+
+// parseNumberRangePair, the template helper: the two ranges pair up one to
+// one - pairs are produced only when both ranges have the same number of
+// members (no member silently dropped).
+//
+//verif:contract ~/pkg/config.parseNumberRangePair
+//verif:props C18
+//verif:kinds post
+func verif_parseNumberRangePair(first, second string) {
+	verif.ResetEvents()
+	_, err := parseNumberRangePair(first, second)
+	const ev = "util.ParseRangeNumbers"
+	if err == nil {
+		verif.Ensures(verif.CallCount(ev) == 2 && len(verif.NthRet[[]int64](ev, 0, 0)) == len(verif.NthRet[[]int64](ev, 1, 0)), "paired_only_when_both_ranges_have_the_same_length")
+	}
+}
